@@ -525,13 +525,62 @@ def run_real_case(spec):
             res['notes']['unstable candidates'] = len(unstable)
             cand_models = [md for md in cand_models if json.dumps(md['key']) not in unstable]
         wk_all = sorted(json.dumps(c['key']) for c in cold if c['score'] is not None)
-        wk_red = sorted(json.dumps(c['key']) for c, cand in zip(cold, want) if c['score'] is not None and not seq_invalid(cand))
         gotkeys = sorted(json.dumps(md['key']) for md in cand_models)
         wantkeys = wk_all
-        if gotkeys != wk_all and gotkeys == wk_red:
-            res['suspected'].append('joint n_splines/spline_order grid: valid candidates skipped because the parameters are set one '
-                                    'after the other (%d of %d)' % (len(wk_all) - len(wk_red), len(wk_all)))
-            wantkeys = wk_red
+        if gotkeys != wk_all and not [k for k in gotkeys if k not in wk_all]:
+            # Valid candidates are missing.  Two mechanisms seen on the unchanged tree are recognised *exactly* (and
+            # reported as suspected defects, see the final report); anything else stays a failing input.
+            #  (b) joint n_splines / spline_order grids: the parameters are set one after the other, a valid pair that is
+            #      invalid half-way raises ValueError and is skipped;
+            #  (c) the warm start (coef_ of the previously fitted model) makes PIRLS diverge where a cold start converges;
+            #      reproduced here through the public API: fresh model, set_params(coef_=..., force=True), fit.
+            left = list(gotkeys)
+            obj_by_key = {}
+            for md, (m, _) in zip(models, items):
+                if not md['is_self']:
+                    obj_by_key.setdefault(json.dumps(md['key']), []).append(m)
+            last = gam if spec['fitted'] else None
+            last_coef = np.array([common.bits2f(b) for b in pre['coef']]) if (spec['fitted'] and pre is not None) else None
+            reduced = []
+            n_b = n_c = 0
+            for cnd, cand in zip(cold, want):
+                if cnd['score'] is None:
+                    continue
+                k = json.dumps(cnd['key'])
+                if k in left:
+                    left.remove(k)
+                    reduced.append(k)
+                    if obj_by_key.get(k):
+                        last_coef = obj_by_key[k].pop(0).coef_
+                    continue
+                if seq_invalid(cand):
+                    n_b += 1
+                    continue
+                if last_coef is not None:
+                    over = {p: [float(v) if p == 'lam' else int(v) for v in part] for p, part in zip(params, cand)}
+                    if 'fit_intercept' in over and not over['fit_intercept'][0]:
+                        over = dict(over, fit_intercept=[1])     # as fitted in the search (suspected defect (a))
+                    try:
+                        c3 = build_model(pygam, spec, over)
+                        c3.set_params(coef_=np.array(last_coef, dtype=float), force=True)
+                        with quiet():
+                            c3.fit(X, y, **fkw)
+                        reduced.append(k)       # fits fine also when warm-started: unexplained
+                    except ValueError as ex:
+                        if type(ex).__name__ in ('OptimizationError', 'NotPositiveDefiniteError'):
+                            n_c += 1
+                        else:
+                            reduced.append(k)
+                else:
+                    reduced.append(k)
+            if sorted(reduced) == gotkeys:
+                wantkeys = sorted(reduced)
+                if n_b:
+                    res['suspected'].append('joint n_splines/spline_order grid: valid candidates skipped because the parameters are set one '
+                                            'after the other (%d of %d)' % (n_b, len(wk_all)))
+                if n_c:
+                    res['suspected'].append('warm start: valid candidates skipped because PIRLS diverges from the previous '
+                                            "model's coefficients (%d of %d)" % (n_c, len(wk_all)))
         if res['returned'] == 'self' and wantkeys:
             orc.append(dict(kind='return_scores=True returned self although candidates can be fitted'))
         elif wantkeys != gotkeys:
